@@ -3,6 +3,7 @@
 package merklearray
 
 import (
+	"bytes"
 	"hash"
 
 	"github.com/algorand/go-algorand/crypto"
@@ -128,10 +129,11 @@ func VerifC37Complete() {
 	vr.Reach("done")
 }
 
-// Positions outside the array are refused by Prove; the empty array commits to
-// the empty digest and proves only the empty set.
+// Positions outside the array are refused by Prove; a proof verifies against
+// no root but the tree's; the empty array commits to the empty digest and
+// proves only the empty set.
 //
-//verif:harness prop=C37 reach=done,refused,empty unwind=16 budget=200 thorough.budget=2400
+//verif:harness prop=C37 reach=done,refused,empty,sameroot unwind=16 budget=200 thorough.budget=2400
 func VerifC37ProveDomain() {
 	n := vr.Choice("n", vr.Param(4, 6))
 	arr := verifC37Leaves(n)
@@ -144,6 +146,12 @@ func VerifC37ProveDomain() {
 		vr.Assert("c37.prove-out-of-range-refused", err != nil && proof == nil)
 	} else {
 		vr.Assert("c37.prove-in-range-ok", err == nil)
+		// a different root: the honest proof verifies against no other digest
+		other := crypto.GenericDigest(vr.BytesN("root2", crypto.Sha512_256Size))
+		if Verify(other, map[uint64]crypto.Hashable{p: arr[p]}, proof) == nil {
+			vr.Reach("sameroot")
+			vr.Assert("c37.other-root-rejected", bytes.Equal(other, tree.Root()))
+		}
 	}
 	if n == 0 {
 		vr.Reach("empty")
@@ -219,22 +227,21 @@ func VerifC37SoundPair() {
 // Under collision freedom the only digests that can make Verify succeed are
 // nodes of the tree itself, so the interesting proofs are those whose hints are
 // tree nodes put in the wrong place / given the wrong length. These harnesses
-// take every hint from the honest tree by a symbolic pick (so a counterexample
-// is a plain list of indices and replays natively against the real SHA-512/256).
+// take the hint for level l from level l of the honest tree by a symbolic pick
+// (so a counterexample is a plain list of indices and replays natively against
+// the real SHA-512/256). Arbitrary hint BYTES are covered by VerifC37SoundSingle
+// and VerifC37VCBindingKnownDepth.
 
-func verifC37Nodes(tree *Tree) [][32]byte {
-	var nodes [][32]byte
-	for _, lvl := range tree.Levels {
-		for _, d := range lvl {
-			var x [32]byte
-			copy(x[:], d)
-			nodes = append(nodes, x)
-		}
+// verifC37PickNode: a node of level l of the tree (the hint consumed at level
+// l of the climb sits next to level-l nodes; above the root the root is offered).
+func verifC37PickNode(label string, tree *Tree, l int) [32]byte {
+	if l >= len(tree.Levels) {
+		l = len(tree.Levels) - 1
 	}
-	return nodes
-}
-
-func verifC37PickNode(label string, nodes [][32]byte) [32]byte {
+	nodes := make([][32]byte, len(tree.Levels[l]))
+	for i, d := range tree.Levels[l] {
+		copy(nodes[i][:], d)
+	}
 	i := int(vr.U8(label))
 	vr.Assume(i < len(nodes))
 	return nodes[i]
@@ -253,13 +260,12 @@ func VerifC37SoundHintSizes() {
 	arr := verifC37Leaves(n)
 	tree, err := Build(arr, verifC37Factory)
 	vr.Assert("c37.build-ok", err == nil)
-	nodes := verifC37Nodes(tree)
 	pos := vr.U64("pos")
 	elem := verifC37Leaf{vr.U8("elem")}
 	proof := &Proof{HashFactory: verifC37Factory, TreeDepth: vr.U8("treedepth")}
 	nh := 1 + vr.Choice("nhints", verifC37Depth(n))
 	for i := 0; i < nh; i++ {
-		a, b := verifC37PickNode("hint.a", nodes), verifC37PickNode("hint.b", nodes)
+		a, b := verifC37PickNode("hint.a", tree, i), verifC37PickNode("hint.b", tree, i)
 		var h crypto.GenericDigest
 		switch vr.Choice("hintsize", 3) {
 		case 1:
@@ -348,13 +354,12 @@ func VerifC37VCBinding() {
 	arr := verifC37Leaves(n)
 	tree, err := BuildVectorCommitmentTree(arr, verifC37Factory)
 	vr.Assert("c37.vc.build-ok", err == nil)
-	nodes := verifC37Nodes(tree)
 	pos := vr.U64("pos")
 	elem := verifC37Leaf{vr.U8("elem")}
 	proof := &Proof{HashFactory: verifC37Factory, TreeDepth: vr.U8("treedepth")}
 	nh := vr.Choice("nhints", len(tree.Levels)+1)
 	for i := 0; i < nh; i++ {
-		h := verifC37PickNode("hint", nodes)
+		h := verifC37PickNode("hint", tree, i)
 		proof.Path = append(proof.Path, crypto.GenericDigest(h[:]))
 	}
 	verr := VerifyVectorCommitment(tree.Root(), map[uint64]crypto.Hashable{pos: elem}, proof)
